@@ -694,6 +694,19 @@ func (b *TB) FPUn(op string, x *Term) *Term {
 	return b.mk(op, SortFP, x)
 }
 
+// FPUnPred: fp.isNaN / fp.isNegative / fp.isZero ...
+func (b *TB) FPUnPred(op string, x *Term) *Term {
+	if x.IsConst() {
+		switch op {
+		case "fp.isNaN":
+			return b.Bool(math.IsNaN(x.fval))
+		case "fp.isNegative":
+			return b.Bool(math.Signbit(x.fval) && !math.IsNaN(x.fval))
+		}
+	}
+	return b.mk(op, SortBool, x)
+}
+
 // unsigned/signed BV -> FP
 func (b *TB) FPFromBV(x *Term, signed bool) *Term {
 	if x.IsConst() {
